@@ -31,7 +31,19 @@ func ValEq(a, b float64) bool {
 		return true
 	}
 	m := math.Max(1, math.Max(math.Abs(a), math.Abs(b)))
-	return math.Abs(a-b) <= 1e-9*m
+	return math.Abs(a-b) <= valTol*m
+}
+
+// valTol is the relative tolerance of ValEq. It is only ever widened by CompareLoose, for the
+// duration of one comparison of an ill-conditioned query (single-threaded use).
+var valTol = 1e-9
+
+// CompareLoose is Compare with the relative tolerance widened to tol.
+func CompareLoose(got, want Result, tol float64) *Diff {
+	old := valTol
+	valTol = tol
+	defer func() { valTol = old }()
+	return Compare(got, want)
 }
 
 func lkey(l labels.Labels) string {
